@@ -132,6 +132,23 @@ def run(tier, seed):
                     gmeta.append(dict(info, step=k))
             res.count("model/" + name); res.count("path/" + kind)
             res.case(("path", name, kind, it), True, dict(info, length=L))
+    # ---- continuation through points where the diabatic coupling is exactly zero (V exactly diagonal), arriving with tracked signs opposite to
+    #      the raw eigenvectors: the states must still be aligned with the ones they are continued from
+    for name, xs_ in [("simple", [[1.0], [3.0], [10.0], [28.0], [30.0], [45.0], [10.0]]), ("dual", [[1.0], [4.0], [9.0], [30.0], [60.0], [5.0]]),
+                      ("vibronic", [[0.1, -0.2, 0.1, 0.05, 0.3], [0.1, -0.2, 0.1, 0.05, 0.1], [0.1, -0.2, 0.1, 0.05, 0.0], [0.0, 0.0, 0.0, 0.0, 0.0], [0.1, 0.1, 0.0, 0.0, -0.2]])]:
+        for flip in ([-1.0, -1.0], [1.0, -1.0], [-1.0, 1.0]):
+            m = mudslide.models.scattering_models[name]()
+            prev = m.update(np.array(xs_[0])); prev._reference = prev._reference * np.array(flip)
+            info = dict(model=name, path="through exactly vanishing coupling", initial_signs=flip)
+            for xv in xs_[1:]:
+                el = m.update(np.array(xv), electronics=prev)
+                ov = np.einsum("pi,pi->i", el._reference, prev._reference)
+                offd = float(np.max(np.abs(m.V(np.array(xv)) - np.diag(np.diag(m.V(np.array(xv)))))))
+                res.count("zero-coupling-chain/" + ("exactly-diagonal" if offd == 0.0 else "coupled"))
+                if np.any(ov < 0):
+                    bad.append(dict(failed="each new set of adiabatic states has non-negative overlap, state by state, with the set it was continued from (at x=%r, off-diagonal of V %.3g: overlaps %r)" % (xv, offd, ov.tolist()), case=info)); break
+                prev = el
+            res.case(("zerocoupling", name, tuple(flip)), True, info)
     # ---- models that carry a reference of their own (constructor option reference=, or compute() called on the model itself):
     #      along a path the states must still be continued from the previous point, not from that fixed reference
     for name, lo, hi in [("modelx", -9.0, 11.0), ("models", -9.0, 11.0), ("super", -6.0, 6.0), ("dual", -5.0, 5.0)]:
